@@ -29,8 +29,8 @@ Fail == <<<<"!", Null>>>>
 InBounds(n, lo, hi) == (lo = 0 \/ n >= lo) /\ (hi = 0 \/ n <= hi)
 
 \* subject part
-SubjOK(c, t) == c.s.c = 0 \/ TRI[t].s = c.s.c
-SubjPairs(c, t) == LET s == TRI[t].s IN
+SubjOK(c, t) == c.s.c = 0 \/ t.s = c.s.c
+SubjPairs(c, t) == LET s == t.s IN
     << <<c.s.b, Cell("N", s)>>, <<c.s.as, Cell("N", s)>>,
        <<c.s.ty, Cell("S", NODE[s].ty)>>, <<c.s.id, Cell("S", NODE[s].id)>> >>
 
@@ -47,7 +47,7 @@ PredPairs(x, p) ==
        <<x.at, TimeOrNull(p)>>, <<x.ab, TimeOrNull(p)>> >>
 
 \* object part
-ObjOK(c, t, opt) == LET x == c.o  o == TRI[t].o IN
+ObjOK(c, t, opt) == LET x == c.o  o == t.o IN
     /\ (x.ck # "" => o = Cell(x.ck, x.cv))
     /\ ((x.pid # 0 \/ x.bd) => o.k = "P")                     \* a predicate pattern needs a predicate object
     /\ (o.k = "P" => PredPartOK([c |-> 0, pid |-> x.pid, bd |-> x.bd, lo |-> x.lo, hi |-> x.hi,
@@ -55,7 +55,7 @@ ObjOK(c, t, opt) == LET x == c.o  o == TRI[t].o IN
     /\ ((o.k # "P" /\ ~opt) => (x.ab = "" /\ x.at = ""))      \* AT / anchor binding need a predicate object
     /\ ((x.ty # "" /\ ~opt) => o.k = "N")                     \* TYPE needs a node
     /\ ((x.id # "" /\ ~opt) => o.k \in {"N", "P"})            \* ID needs a node or a predicate
-ObjPairs(c, t) == LET x == c.o  o == TRI[t].o IN
+ObjPairs(c, t) == LET x == c.o  o == t.o IN
     << <<x.b, o>>, <<x.as, o>>,
        <<x.ty, IF o.k = "N" THEN Cell("S", NODE[o.v].ty) ELSE Null>>,
        <<x.id, IF o.k = "N" THEN Cell("S", NODE[o.v].id)
@@ -65,9 +65,9 @@ ObjPairs(c, t) == LET x == c.o  o == TRI[t].o IN
 
 \* global BEFORE/AFTER/BETWEEN: closed bounds on the anchor of the matched triple's predicate;
 \* immutable triples are unaffected (D)
-GlobalOK(t, glo, ghi) == IsTmp(TRI[t].p) => InBounds(PRED[TRI[t].p].n, glo, ghi)
+GlobalOK(t, glo, ghi) == IsTmp(t.p) => InBounds(PRED[t.p].n, glo, ghi)
 
-AllPairs(c, t) == SubjPairs(c, t) \o PredPairs(c.p, TRI[t].p) \o ObjPairs(c, t)
+AllPairs(c, t) == SubjPairs(c, t) \o PredPairs(c.p, t.p) \o ObjPairs(c, t)
 Named(ps) == {i \in DOMAIN ps : ps[i][1] # ""}
 OidIdx == 13     \* position of the object's ID alias in AllPairs
 
@@ -78,14 +78,14 @@ OidIdx == 13     \* position of the object's ID alias in AllPairs
 \*      repeated inside the clause takes one value (it overwrites the earlier value of that name)
 \*  "rows-without-bindings-dropped": the result table cannot hold a row without bindings, so a clause
 \*      without any binding that is not fully specified never adds rows: see Step
-Unchecked(c, t, dv, i) == dv = "oid-alias-unchecked" /\ i = OidIdx /\ TRI[t].o.k = "N"
+Unchecked(c, t, dv, i) == dv = "oid-alias-unchecked" /\ i = OidIdx /\ t.o.k = "N"
 
 \* a binding repeated inside one clause must take one value
 Consistent(c, t, ps, dv) == \A i, j \in Named(ps) :
     (ps[i][1] = ps[j][1] /\ ~Unchecked(c, t, dv, i) /\ ~Unchecked(c, t, dv, j)) => ps[i][2] = ps[j][2]
 
 Matches(c, t, glo, ghi, dv) ==
-    /\ SubjOK(c, t) /\ PredPartOK(c.p, TRI[t].p, c.opt) /\ ObjOK(c, t, c.opt)
+    /\ SubjOK(c, t) /\ PredPartOK(c.p, t.p, c.opt) /\ ObjOK(c, t, c.opt)
     /\ GlobalOK(t, glo, ghi)
     /\ Consistent(c, t, AllPairs(c, t), dv)
 
@@ -104,12 +104,14 @@ Compatible(a, m) == \A b \in DOMAIN a \cap DOMAIN m : a[b] = m[b]
 Merge(a, m) == [b \in DOMAIN a \cup DOMAIN m |-> IF b \in DOMAIN a THEN a[b] ELSE m[b]]
 
 \* ---------------------------------------------------------------------------------------------
-\* Solutions: fold the clauses in textual order over the data D = set of <<graph index, triple>>.
-\* Each element is [a |-> assignment, w |-> witness sequence of data elements (<<0,0>> for an
-\* unmatched OPTIONAL clause)].  A mandatory clause keeps the compatible matches; an OPTIONAL
+\* Solutions: fold the clauses in textual order over the data D = set of <<graph index, triple>>
+\* (a triple is a record [s |-> node index, p |-> predicate index, o |-> cell]).
+\* Each element is [a |-> assignment, w |-> witness sequence of data elements (<<0, NoTriple>> for
+\* an unmatched OPTIONAL clause)].  A mandatory clause keeps the compatible matches; an OPTIONAL
 \* clause keeps every incoming solution: once per compatible match, or exactly once with the
 \* clause's new bindings NULL when there is none (left outer join, C10).
 Empty == [a |-> <<>>, w |-> <<>>]    \* <<>> is the function with empty domain
+NoTriple == [s |-> 0, p |-> 0, o |-> Null]
 
 Specific(c) == c.s.c # 0 /\ c.p.c # 0 /\ c.o.ck # ""
 \* names introduced by the clauses before position i
@@ -118,7 +120,7 @@ Step(S, cs, i, D, glo, ghi, dv) ==
     LET c == cs[i]
         ext(x) == {[a |-> Merge(x.a, Assign(c, d[2])), w |-> Append(x.w, d)] :
                       d \in {d \in D : Matches(c, d[2], glo, ghi, dv) /\ Compatible(x.a, Assign(c, d[2]))}}
-        nul(x) == [a |-> Merge(x.a, [b \in ClauseNames(c) |-> Null]), w |-> Append(x.w, <<0, 0>>)]
+        nul(x) == [a |-> Merge(x.a, [b \in ClauseNames(c) |-> Null]), w |-> Append(x.w, <<0, NoTriple>>)]
     IN  IF dv = "rows-without-bindings-dropped" /\ ClauseNames(c) = {} /\ ~Specific(c)
         \* deviation: such a clause never adds rows to the table: it is skipped while the table has no
         \* bindings yet and empties the result (product with an empty table) afterwards
@@ -133,9 +135,11 @@ RECURSIVE Fold(_, _, _, _, _, _, _)
 Fold(S, cs, i, D, glo, ghi, dv) ==
     IF i > Len(cs) THEN S ELSE Fold(Step(S, cs, i, D, glo, ghi, dv), cs, i + 1, D, glo, ghi, dv)
 
-Data(graphs) == UNION {{<<g, graphs[g][i]>> : i \in DOMAIN graphs[g]} : g \in DOMAIN graphs}
+\* data = set of <<graph index, triple record [s, p, o]>>; q.graphs lists universe triple indices
+Data(graphs) == UNION {{<<g, TRI[graphs[g][i]]>> : i \in DOMAIN graphs[g]} : g \in DOMAIN graphs}
 
-SolutionsDev(q, dv) == Fold({Empty}, q.clauses, 1, Data(q.graphs), q.glo, q.ghi, dv)
+SolutionsOver(D, q, dv) == Fold({Empty}, q.clauses, 1, D, q.glo, q.ghi, dv)
+SolutionsDev(q, dv) == SolutionsOver(Data(q.graphs), q, dv)
 Solutions(q) == SolutionsDev(q, "")
 
 \* the row a solution projects to: proj = sequence of source binding names
